@@ -192,21 +192,50 @@ class Scheduler:
 
 
 def patch_locks(sched):
-    """Replace labrea's module-level locks with scheduler-aware ones. Returns an undo function."""
+    """Replace labrea's locks with scheduler-aware ones. Only names that exist are patched (the lock layout is an
+    implementation detail), and `threading` as seen from the traced modules is shimmed so that locks created on the
+    fly are scheduler-aware too. Returns an undo function."""
     import labrea.overload as ov
     import labrea.runtime as rt
-    saved = (rt.lock, ov._MODULE_LOCK, ov._get_lock, dict(ov._LOCKS))
-    rt.lock = SchedLock(sched)
-    ov._MODULE_LOCK = SchedLock(sched)
-    locks = {}
+    undo_list = []
 
-    def _get_lock(x):
-        with ov._MODULE_LOCK:
-            return locks.setdefault(x, SchedLock(sched))
+    def swap(mod, name, value):
+        if hasattr(mod, name):
+            old = getattr(mod, name)
+            setattr(mod, name, value)
+            undo_list.append((mod, name, old))
 
-    ov._get_lock = _get_lock
+    if isinstance(getattr(rt, "lock", None), type(threading.Lock())):
+        swap(rt, "lock", SchedLock(sched))
+    if isinstance(getattr(ov, "_MODULE_LOCK", None), type(threading.Lock())):
+        swap(ov, "_MODULE_LOCK", SchedLock(sched))
+    if callable(getattr(ov, "_get_lock", None)):
+        locks = {}
+        module_lock = SchedLock(sched)
+
+        def _get_lock(x):
+            with module_lock:
+                return locks.setdefault(x, SchedLock(sched))
+
+        swap(ov, "_get_lock", _get_lock)
+
+    class _Threading:
+        def __getattr__(self_, name):
+            return getattr(threading, name)
+
+        @staticmethod
+        def Lock():
+            return SchedLock(sched)
+
+        RLock = Lock
+
+    shim = _Threading()
+    for mod in (ov, rt):
+        if getattr(mod, "threading", None) is threading:
+            swap(mod, "threading", shim)
 
     def undo():
-        rt.lock, ov._MODULE_LOCK, ov._get_lock = saved[0], saved[1], saved[2]
+        for mod, name, old in reversed(undo_list):
+            setattr(mod, name, old)
 
     return undo
